@@ -160,14 +160,26 @@ structure VM where
 def stackSize : Nat := 1024
 def blockStackSize : Nat := 16
 
+/-- How a run ends. -/
+inductive Halt where
+  | ok                          -- `RET` on an empty stack
+  | rt (text : Bytes)           -- a runtime error (`runtimeErr`), with its position
+  | internal (text : Bytes)     -- "internal error: non-empty stack on prog end"
+  deriving Repr
+
+def Halt.err : Halt → Option Bytes
+  | .ok => none
+  | .rt t => some t
+  | .internal t => some t
+
 inductive Step where
   | next (vm : VM)
-  | halt (vm : VM) (err : Option Bytes)
+  | halt (vm : VM) (h : Halt)
   | panic (vm : VM)
 
 def rtError (p : Prog) (vm : VM) (msg : Bytes) : Step :=
   match p.positions[vm.pc - 1]? with
-  | some pos => .halt vm (some (str "runtime error: line " ++ fmtPos p.lfs pos ++ str ": " ++ msg))
+  | some pos => .halt vm (.rt (str "runtime error: line " ++ fmtPos p.lfs pos ++ str ": " ++ msg))
   | none => .panic vm
 
 def push (p : Prog) (vm : VM) (v : Value) : Step :=
@@ -286,13 +298,179 @@ def setNth {α} : List α → Nat → α → List α
   | _ :: xs, 0, a => a :: xs
   | x :: xs, n+1, a => x :: setNth xs n a
 
+/-- One decoded instruction: opcode, operands, offset of the next instruction. -/
+structure Instr where
+  op : Op
+  a : Nat := 0        -- first operand (index, slot, count, jump distance)
+  b : Nat := 0        -- second operand (DEFBLOCK name index, BIND option byte)
+  next : Nat
+  deriving Repr
+
+/-- Decode the instruction at `pc` the way `vm.run` reads it: the opcode byte, then
+its operands (`readUvarint`, `readU16`, `readByte`).  `none` where a read runs off
+the end of the code (the Go code panics there) or the opcode is unknown. -/
+def decodeAt (p : Prog) (pc : Nat) : Option Instr := do
+  let byte ← p.code[pc]?
+  let o ← Op.ofByte byte
+  match o with
+  | .CONST | .GETLOCAL | .SETLOCAL | .GETFIELD | .SETFIELD | .POPN =>
+    let (x, nx) ← readUv p (pc + 1)
+    pure { op := o, a := x, next := nx }
+  | .DEFBLOCK =>
+    let (x, n1) ← readUv p (pc + 1)
+    let (y, n2) ← readUv p n1
+    pure { op := o, a := x, b := y, next := n2 }
+  | .JUMP | .JFALSE | .LOOP =>
+    let (j, nx) ← readU16 p (pc + 1)
+    pure { op := o, a := j, next := nx }
+  | .BIND =>
+    let (x, n1) ← readUv p (pc + 1)
+    let opt ← p.code[n1]?
+    pure { op := o, a := x, b := opt.toNat, next := n1 + 1 }
+  | _ => pure { op := o, next := pc + 1 }
+
+/-- Execute a decoded instruction.  `vm.pc` is still the offset of the opcode. -/
+def exec (p : Prog) (i : Instr) (vm0 : VM) : Step :=
+  -- after the opcode byte has been read
+  let vm1 := { vm0 with pc := vm0.pc + 1, opsRead := vm0.opsRead + 1 }
+  -- after all operands have been read
+  let vm := { vm1 with pc := i.next }
+  match i.op with
+  | .NOP => .next vm
+  | .CONST =>
+    match p.consts[i.a]? with
+    | some v => push p vm v
+    | none => .panic vm
+  | .ZERO => push p vm (.int 0)
+  | .ONE => push p vm (.int 1)
+  | .TRUE => push p vm (.bool true)
+  | .FALSE => push p vm (.bool false)
+  | .NIL => push p vm .nil
+  | .EQ | .LT | .GT | .ADD | .SUB | .MUL | .DIV =>
+    match vm.stack, ArOp.ofOp i.op with
+    | bv :: av :: rest, some op =>
+      match binop op i.op.name av bv with
+      | .ok v => .next { vm with stack := v :: rest }
+      | .err msg => rtError p vm msg
+    | _, _ => .panic vm
+  | .NEG =>
+    match vm.stack with
+    | .int x :: rest => .next { vm with stack := .int (-x) :: rest }
+    | .float f :: rest => .next { vm with stack := .float (fBits (-(fOf f))) :: rest }
+    | v :: _ => rtError p vm (str "NEG: invalid type: " ++ str (vtype v) ++ str ", expected number")
+    | [] => .panic vm
+  | .UNPLUS =>
+    match vm.stack with
+    | v :: _ => if v.isNumber then .next vm
+                else rtError p vm (str "UNPLUS: invalid type: " ++ str (vtype v) ++ str ", expected number")
+    | [] => .panic vm
+  | .NOT =>
+    match vm.stack with
+    | v :: rest => .next { vm with stack := .bool (isFalsey v) :: rest }
+    | [] => .panic vm
+  | .JUMP => .next { vm with pc := i.next + i.a }
+  | .LOOP => if i.a ≤ i.next then .next { vm with pc := i.next - i.a } else .panic vm
+  | .JFALSE =>
+    match vm.stack with
+    | v :: _ => .next { vm with pc := if isFalsey v then i.next + i.a else i.next }
+    | [] => .panic vm
+  | .POP =>
+    match vm.stack with
+    | _ :: rest => .next { vm with stack := rest }
+    | [] => .panic vm
+  | .POPN =>
+    if i.a ≤ vm.stack.length then .next { vm with stack := vm.stack.drop i.a } else .panic vm
+  | .PRINT =>
+    match vm.stack with
+    | v :: rest => .next { vm with stack := rest, out := .print (fmtValue v ++ str "\n") :: vm.out }
+    | [] => .panic vm
+  | .GETLOCAL =>
+    if i.a < vm.stack.length then push p vm (vm.stack.getD (vm.stack.length - 1 - i.a) .nil)
+    else .panic vm
+  | .SETLOCAL =>
+    match vm.stack with
+    | top :: _ =>
+      if i.a < vm.stack.length then .next { vm with stack := setNth vm.stack (vm.stack.length - 1 - i.a) top }
+      else .panic vm
+    | [] => .panic vm
+  | .DEFBLOCK =>
+    if vm.blocks.length = blockStackSize then rtError p vm1 (str "blocks nested too deep")
+    else
+      match constStr p i.a, constStr p i.b with
+      | some t, some n =>
+        .next { vm with blocks := .mk t n .nil :: vm.blocks,
+                        blockTosMax := max vm.blockTosMax (vm.blocks.length + 1) }
+      | _, _ => .panic vm
+  | .ENDBLOCK =>
+    match vm.blocks with
+    | [] => .panic vm
+    | [b] => .next { vm with blocks := [], result := vm.result ++ [b] }
+    | child :: parent :: rest =>
+      let k := child.key
+      match parent.fields.get k with
+      | .none =>
+        .next { vm with blocks := .mk parent.typ parent.name (parent.fields.addChild k child) :: rest }
+      | _ => rtError p { vm with blocks := parent :: rest } (str "child " ++ k ++ str " duplicate at parent")
+  | .GETFIELD =>
+    match constStr p i.a with
+    | some name =>
+      if vm.blocks.isEmpty then .panic vm else
+      match blockGet name vm.blocks with
+      | some v => push p vm v
+      | none => rtError p vm (str "identifier '" ++ name ++ str "' not resolved as var or field")
+    | none => .panic vm
+  | .SETFIELD =>
+    match constStr p i.a, vm.blocks, vm.stack with
+    | some name, top :: rest, v :: _ =>
+      match top.fields.get name with
+      | .child _ => rtError p vm (str "field " ++ name ++ str " duplicates child block")
+      | _ => .next { vm with blocks := .mk top.typ top.name (top.fields.setVal name v) :: rest }
+    | _, _, _ => .panic vm
+  | .BIND =>
+    let warned : Option VM :=
+      match vm.binding with
+      | some _ =>
+        match p.positions[vm1.pc - 1]? with
+        | some pos => some { vm with log := (str "WARNING: line " ++ fmtPos p.lfs pos ++
+                                str ": repeated bind statement, last one overrides\n") :: vm.log }
+        | none => none
+      | none => some vm
+    match warned with
+    | none => .panic vm
+    | some vm =>
+    match constStr p i.a with
+    | some bt =>
+      let sel := i.b % 16
+      let tgt := i.b / 16 * 16
+      let blocks := vm.result.filter (fun b => b.typ = bt)
+      if blocks.isEmpty then rtError p vm (str "bind: no blocks of type " ++ bt)
+      else if blocks.length ≠ 1 && sel = selOne then
+        rtError p vm (str "bind: found " ++ natDec blocks.length ++ str " blocks of type " ++ bt
+                      ++ str " but expected just 1")
+      else
+        let first := blocks.headD default
+        let last := blocks.getLastD default
+        if tgt = tgtStruct && (sel = selOne || sel = selFirst) then .next { vm with binding := some (.struct first) }
+        else if tgt = tgtStruct && sel = selLast then .next { vm with binding := some (.struct last) }
+        else if tgt = tgtSlice && sel = selAll then .next { vm with binding := some (.slice blocks) }
+        else if tgt = tgtSlice && (sel = selOne || sel = selFirst) then .next { vm with binding := some (.slice [first]) }
+        else if tgt = tgtSlice && sel = selLast then .next { vm with binding := some (.slice [last]) }
+        else rtError p vm (str "invalid bind target and selector :0x" ++ padLeft 2 32 (hexLower i.b))
+    | none => .panic vm
+  | .RET =>
+    if vm.stack.isEmpty then .halt vm .ok
+    else .halt vm (.internal (str "internal error: non-empty stack on prog end; tos=" ++ natDec vm.stack.length))
+
+/-- The text the trace option writes before an instruction: the stack, then the
+disassembled instruction. -/
+def traceText (p : Prog) (vm : VM) : Option Bytes :=
+  (disasmInstr p vm.pc).map (fun t => printStack vm.stack ++ t.1)
+
+/-- One iteration of the loop in `vm.run`. -/
 def vmStep (p : Prog) (trace : Bool) (vm0 : VM) : Step :=
   -- trace output happens before the instruction is read
   let traced : Option VM :=
-    if trace then
-      match disasmInstr p vm0.pc with
-      | some (t, _) => some { vm0 with out := .trace (printStack vm0.stack ++ t) :: vm0.out }
-      | none => none
+    if trace then (traceText p vm0).map (fun t => { vm0 with out := .trace t :: vm0.out })
     else some vm0
   match traced with
   | none => .panic vm0
@@ -300,173 +478,15 @@ def vmStep (p : Prog) (trace : Bool) (vm0 : VM) : Step :=
   match p.code[vm.pc]? with
   | none => .panic vm
   | some b =>
-    let vm := { vm with pc := vm.pc + 1, opsRead := vm.opsRead + 1 }
     match Op.ofByte b with
-    | none => .next vm
-    | some o =>
-    match o with
-    | .NOP => .next vm
-    | .CONST =>
-      match readUv p vm.pc with
-      | some (idx, nx) =>
-        match p.consts[idx]? with
-        | some v => push p { vm with pc := nx } v
-        | none => .panic vm
+    | none => .next { vm with pc := vm.pc + 1, opsRead := vm.opsRead + 1 }   -- no case matches: nothing happens
+    | some _ =>
+      match decodeAt p vm.pc with
+      | some i => exec p i vm
       | none => .panic vm
-    | .ZERO => push p vm (.int 0)
-    | .ONE => push p vm (.int 1)
-    | .TRUE => push p vm (.bool true)
-    | .FALSE => push p vm (.bool false)
-    | .NIL => push p vm .nil
-    | .EQ | .LT | .GT | .ADD | .SUB | .MUL | .DIV =>
-      match vm.stack, ArOp.ofOp o with
-      | bv :: av :: rest, some op =>
-        match binop op o.name av bv with
-        | .ok v => .next { vm with stack := v :: rest }
-        | .err msg => rtError p vm msg
-      | _, _ => .panic vm
-    | .NEG =>
-      match vm.stack with
-      | .int i :: rest => .next { vm with stack := .int (-i) :: rest }
-      | .float f :: rest => .next { vm with stack := .float (fBits (-(fOf f))) :: rest }
-      | v :: _ => rtError p vm (str "NEG: invalid type: " ++ str (vtype v) ++ str ", expected number")
-      | [] => .panic vm
-    | .UNPLUS =>
-      match vm.stack with
-      | v :: _ => if v.isNumber then .next vm
-                  else rtError p vm (str "UNPLUS: invalid type: " ++ str (vtype v) ++ str ", expected number")
-      | [] => .panic vm
-    | .NOT =>
-      match vm.stack with
-      | v :: rest => .next { vm with stack := .bool (isFalsey v) :: rest }
-      | [] => .panic vm
-    | .JUMP =>
-      match readU16 p vm.pc with
-      | some (j, nx) => .next { vm with pc := nx + j }
-      | none => .panic vm
-    | .LOOP =>
-      match readU16 p vm.pc with
-      | some (j, nx) => if j ≤ nx then .next { vm with pc := nx - j } else .panic vm
-      | none => .panic vm
-    | .JFALSE =>
-      match readU16 p vm.pc, vm.stack with
-      | some (j, nx), v :: _ => .next { vm with pc := if isFalsey v then nx + j else nx }
-      | _, _ => .panic vm
-    | .POP =>
-      match vm.stack with
-      | _ :: rest => .next { vm with stack := rest }
-      | [] => .panic vm
-    | .POPN =>
-      match readUv p vm.pc with
-      | some (n, nx) =>
-        if n ≤ vm.stack.length then .next { vm with pc := nx, stack := vm.stack.drop n } else .panic vm
-      | none => .panic vm
-    | .PRINT =>
-      match vm.stack with
-      | v :: rest => .next { vm with stack := rest, out := .print (fmtValue v ++ str "\n") :: vm.out }
-      | [] => .panic vm
-    | .GETLOCAL =>
-      match readUv p vm.pc with
-      | some (slot, nx) =>
-        if slot < vm.stack.length then
-          push p { vm with pc := nx } (vm.stack.getD (vm.stack.length - 1 - slot) .nil)
-        else .panic vm
-      | none => .panic vm
-    | .SETLOCAL =>
-      match readUv p vm.pc, vm.stack with
-      | some (slot, nx), top :: _ =>
-        if slot < vm.stack.length then
-          .next { vm with pc := nx, stack := setNth vm.stack (vm.stack.length - 1 - slot) top }
-        else .panic vm
-      | _, _ => .panic vm
-    | .DEFBLOCK =>
-      if vm.blocks.length = blockStackSize then rtError p vm (str "blocks nested too deep")
-      else
-        match readUv p vm.pc with
-        | some (ti, n1) =>
-          match readUv p n1 with
-          | some (ni, n2) =>
-            match constStr p ti, constStr p ni with
-            | some t, some n =>
-              .next { vm with pc := n2, blocks := .mk t n .nil :: vm.blocks,
-                              blockTosMax := max vm.blockTosMax (vm.blocks.length + 1) }
-            | _, _ => .panic vm
-          | none => .panic vm
-        | none => .panic vm
-    | .ENDBLOCK =>
-      match vm.blocks with
-      | [] => .panic vm
-      | [b] => .next { vm with blocks := [], result := vm.result ++ [b] }
-      | child :: parent :: rest =>
-        let k := child.key
-        match parent.fields.get k with
-        | .none =>
-          .next { vm with blocks := .mk parent.typ parent.name (parent.fields.addChild k child) :: rest }
-        | _ => rtError p { vm with blocks := parent :: rest } (str "child " ++ k ++ str " duplicate at parent")
-    | .GETFIELD =>
-      match readUv p vm.pc with
-      | some (idx, nx) =>
-        match constStr p idx with
-        | some name =>
-          let vm := { vm with pc := nx }
-          if vm.blocks.isEmpty then .panic vm else
-          match blockGet name vm.blocks with
-          | some v => push p vm v
-          | none => rtError p vm (str "identifier '" ++ name ++ str "' not resolved as var or field")
-        | none => .panic vm
-      | none => .panic vm
-    | .SETFIELD =>
-      match readUv p vm.pc with
-      | some (idx, nx) =>
-        match constStr p idx, vm.blocks, vm.stack with
-        | some name, top :: rest, v :: _ =>
-          let vm := { vm with pc := nx }
-          match top.fields.get name with
-          | .child _ => rtError p vm (str "field " ++ name ++ str " duplicates child block")
-          | _ => .next { vm with blocks := .mk top.typ top.name (top.fields.setVal name v) :: rest }
-        | _, _, _ => .panic vm
-      | none => .panic vm
-    | .BIND =>
-      let warned : Option VM :=
-        match vm.binding with
-        | some _ =>
-          match p.positions[vm.pc - 1]? with
-          | some pos => some { vm with log := (str "WARNING: line " ++ fmtPos p.lfs pos ++
-                                  str ": repeated bind statement, last one overrides\n") :: vm.log }
-          | none => none
-        | none => some vm
-      match warned with
-      | none => .panic vm
-      | some vm =>
-      match readUv p vm.pc with
-      | some (idx, n1) =>
-        match constStr p idx, p.code[n1]? with
-        | some bt, some opt =>
-          let vm := { vm with pc := n1 + 1 }
-          let sel := opt.toNat % 16
-          let tgt := opt.toNat / 16 * 16
-          let blocks := vm.result.filter (fun b => b.typ = bt)
-          if blocks.isEmpty then rtError p vm (str "bind: no blocks of type " ++ bt)
-          else if blocks.length ≠ 1 && sel = selOne then
-            rtError p vm (str "bind: found " ++ natDec blocks.length ++ str " blocks of type " ++ bt
-                          ++ str " but expected just 1")
-          else
-            let first := blocks.headD default
-            let last := blocks.getLastD default
-            if tgt = tgtStruct && (sel = selOne || sel = selFirst) then .next { vm with binding := some (.struct first) }
-            else if tgt = tgtStruct && sel = selLast then .next { vm with binding := some (.struct last) }
-            else if tgt = tgtSlice && sel = selAll then .next { vm with binding := some (.slice blocks) }
-            else if tgt = tgtSlice && (sel = selOne || sel = selFirst) then .next { vm with binding := some (.slice [first]) }
-            else if tgt = tgtSlice && sel = selLast then .next { vm with binding := some (.slice [last]) }
-            else rtError p vm (str "invalid bind target and selector :0x" ++ padLeft 2 32 (hexLower opt.toNat))
-        | _, _ => .panic vm
-      | none => .panic vm
-    | .RET =>
-      if vm.stack.isEmpty then .halt vm none
-      else .halt vm (some (str "internal error: non-empty stack on prog end; tos=" ++ natDec vm.stack.length))
 
 inductive RunRes where
-  | done (vm : VM) (err : Option Bytes)
+  | done (vm : VM) (h : Halt)
   | panic (vm : VM)
   | timeout (vm : VM)
 
